@@ -140,7 +140,8 @@ Print Assumptions C14_save_wf.
 
 (* --- byte arrays holding sofa data (Sofa.sofaArray) ------------------------------------------------------------------
    They are given ids and written outside the traversal: by XMI after it (`if ... not any(fs is sofa.sofaArray for fs in
-   feature_structures)`: xmi_trav), by JSON before it, in front of their sofa (save_pre). *)
+   feature_structures)`: xmi_trav), by JSON before it, in front of the first sofa that refers to them, and left out of the
+   sorted part (`written_sofa_arrays`: save_pre, uniq, without). *)
 
 (* what an XMI save visits: what the traversal found, then the arrays it did not find, each once *)
 Theorem C14_xmi_trav_spec : forall ta tx,
@@ -149,13 +150,13 @@ Theorem C14_xmi_trav_spec : forall ta tx,
 Proof. exact (fun ta tx => conj (xmi_trav_in ta tx) (conj (xmi_trav_prefix ta tx) (xmi_trav_nodup ta tx))). Qed.
 Print Assumptions C14_xmi_trav_spec.
 
-(* the JSON save: without sofa data arrays it is `save`; its state is that of a traversal of the arrays followed by the
-   structures (so C14_save_preserves_content / _keeps_ids / _ids_fresh_distinct / _wf speak about it); saving again returns
+(* the JSON save: without sofa data arrays it is `save`; its state is that of a traversal of the arrays (each once) followed
+   by the structures (so C14_save_preserves_content / _keeps_ids / _ids_fresh_distinct / _wf speak about it); saving again returns
    the same document and the same state; with all ids present it is the identity on the state *)
 Theorem C14_save_pre_spec : forall pre trav s,
-  save_pre [] trav s = save trav s /\ fst (save_pre pre trav s) = traverse (pre ++ trav) s /\
+  save_pre [] trav s = save trav s /\ fst (save_pre pre trav s) = traverse (uniq pre ++ trav) s /\
   save_pre pre trav (fst (save_pre pre trav s)) = save_pre pre trav s /\
-  (settled (pre ++ trav) s -> save_pre pre trav s = (s, doc_of_pre pre trav s)).
+  (settled (uniq pre ++ trav) s -> save_pre pre trav s = (s, doc_of_pre pre trav s)).
 Proof.
   exact (fun pre trav s => conj (save_pre_nil trav s) (conj (save_pre_state pre trav s)
            (conj (save_pre_idempotent pre trav s) (save_pre_settled pre trav s)))).
@@ -163,7 +164,9 @@ Qed.
 Print Assumptions C14_save_pre_spec.
 
 (* every save lists every structure of the store that it visits; in particular every sofa data array is an element of
-   EVERY XMI and of EVERY JSON document, whether or not this save is the one that gave the array its id *)
+   EVERY XMI and of EVERY JSON document, whether or not this save is the one that gave the array its id - and it is
+   listed exactly once (count_lab), however many sofas share it and whether or not the traversal reaches it too (XMI: when
+   the traversal itself lists no structure twice) *)
 Theorem C14_save_lists_visited : forall t s l, In l t -> id_of l (st_entries s) <> None -> exists i, In (l, i) (snd (save t s)).
 Proof. exact save_lists_visited. Qed.
 Print Assumptions C14_save_lists_visited.
@@ -171,6 +174,13 @@ Theorem C14_saves_list_arrays : forall ta tx tj s a, In a ta -> id_of a (st_entr
   (exists i, In (a, i) (snd (save (xmi_trav ta tx) s))) /\ (exists i, In (a, i) (snd (save_pre ta tj s))).
 Proof. exact (fun ta tx tj s a Ha Hs => conj (xmi_save_lists_arrays ta tx s a Ha Hs) (json_save_lists_arrays ta tj s a Ha Hs)). Qed.
 Print Assumptions C14_saves_list_arrays.
+Theorem C14_saves_list_arrays_once : forall ta tx tj s a, In a ta -> id_of a (st_entries s) <> None ->
+  (NoDup tx -> count_lab a (snd (save (xmi_trav ta tx) s)) = 1%nat) /\ count_lab a (snd (save_pre ta tj s)) = 1%nat.
+Proof.
+  exact (fun ta tx tj s a Ha Hs => conj (fun ND => xmi_save_lists_arrays_once ta tx s a ND Ha Hs)
+                                        (json_save_lists_arrays_once ta tj s a Ha Hs)).
+Qed.
+Print Assumptions C14_saves_list_arrays_once.
 
 (* --- histories: any number of operations in any order ------------------------------------------------------------- *)
 
@@ -183,9 +193,11 @@ Theorem C14_history_documents_repeat : forall ta tx tj k ops s d d',
 Proof. exact history_documents_repeat. Qed.
 Print Assumptions C14_history_documents_repeat.
 
-(* and each of them lists every sofa data array of the store, the first one as well as the last *)
+(* and each of them lists every sofa data array of the store, the first one as well as the last, exactly once (both
+   formats; for XMI provided the traversal lists no structure twice) *)
 Theorem C14_history_documents_list_arrays : forall ta tx tj k ops s d a, k = OXmi \/ k = OJson ->
-  In d (docs_of k ta tx tj ops s) -> In a ta -> id_of a (st_entries s) <> None -> exists i, In (a, i) d.
+  In d (docs_of k ta tx tj ops s) -> In a ta -> id_of a (st_entries s) <> None ->
+  (exists i, In (a, i) d) /\ (k = OJson \/ NoDup tx -> count_lab a d = 1%nat).
 Proof. exact history_documents_list_arrays. Qed.
 Print Assumptions C14_history_documents_list_arrays.
 
@@ -259,7 +271,7 @@ Qed.
 (* a second view whose sofa data is a byte array (label 3) set through the API, id-less and not reachable from an indexed
    structure; two indexed structures 1 2.  The first to_xmi gives it id 4 and lists it; the second and third list it again;
    to_json lists it first (before its sofa) under the same id; typecheck does not touch it.  With the array also indexed
-   (traversal [1;2;3]) XMI lists it once and JSON twice. *)
+   (traversal [1;2;3]) and shared by two sofas both formats still list it once. *)
 Example C14_sofa_array_history :
   let s := mkSt [mkE 1 (Some 2); mkE 2 (Some 3); mkE 3 None] 4 in
   wf_state s /\ xmi_trav [3]%N [1; 2]%N = [1; 2; 3]%N /\ xmi_trav [3; 3]%N [1; 3; 2]%N = [1; 3; 2]%N /\
@@ -268,7 +280,8 @@ Example C14_sofa_array_history :
   docs_of OJson [3]%N [1; 2]%N [1; 2]%N [OJson; OXmi; OJson] s =
     [[(3%N, 4); (1%N, 2); (2%N, 3)]; [(3%N, 4); (1%N, 2); (2%N, 3)]] /\
   map st_next (states_of [3]%N [1; 2]%N [1; 2]%N [OTypecheck; OXmi; OXmi; OJson] s) = [4; 5; 5; 5] /\
-  docs_of OJson [3]%N [1; 2; 3]%N [1; 2; 3]%N [OXmi; OJson] s = [[(3%N, 4); (1%N, 2); (2%N, 3); (3%N, 4)]].
+  docs_of OJson [3; 3]%N [1; 2; 3]%N [1; 2; 3]%N [OXmi; OJson] s = [[(3%N, 4); (1%N, 2); (2%N, 3)]] /\
+  docs_of OXmi [3; 3]%N [1; 2; 3]%N [1; 2; 3]%N [OJson; OXmi] s = [[(1%N, 2); (2%N, 3); (3%N, 4)]].
 Proof. cbv zeta. split; [apply wf_stateb_spec; reflexivity|repeat split; reflexivity]. Qed.
 
 (* all ids present: three saves in mixed formats leave the state alone *)
